@@ -88,7 +88,7 @@ class EvalMixin:
 
     def e_Dict(self, e, st, k):
         if any(x is None for x in e.keys):
-            raise Unsupported("dict unpacking")
+            return self.e_dict_unpack(e, st, k)
 
         def done(st1, vs):
             ref = self.new_dict(st1)
@@ -98,6 +98,50 @@ class EvalMixin:
             return k(st1, SV(ref, "dict"))
 
         return self.ev_list(list(e.keys) + list(e.values), st, done)
+
+    def e_dict_unpack(self, e, st, k):
+        """{**a, k: v, **b}: a fresh dict built left to right; a later part overrides an earlier one key by key."""
+        parts = []  # ("kv", key expr, value expr) | ("unpack", expr)
+        for kk, vv in zip(e.keys, e.values):
+            parts.append(("unpack", vv) if kk is None else ("kv", kk, vv))
+        exprs = [x for p in parts for x in p[1:]]
+
+        def done(st1, vs):
+            it = iter(vs)
+            ref = self.new_dict(st1)
+            r = Val.r(ref)
+            for p in parts:
+                if p[0] == "kv":
+                    kv, vv = next(it), next(it)
+                    self.dict_store(st1, ref, kv.t, vv.t, fresh=True)
+                    continue
+                src = self.narrow(st1, next(it))
+                if src.ty != "dict":
+                    raise Unsupported("dict unpacking of a non-dict")
+                sr = Val.r(src.t)
+                has_d, val_d = z3.Select(st1.H("$dhas"), r), z3.Select(st1.H("$dval"), r)
+                has_s, val_s = z3.Select(st1.H("$dhas"), sr), z3.Select(st1.H("$dval"), sr)
+                # point-wise array combinators (no quantifier over keys): has' = has_d or has_s ; val' = ite(has_s, val_s, val_d)
+                or2 = self.get_uf("map_or2", [z3.BoolSort(), z3.BoolSort()], z3.BoolSort())
+                itv = self.get_uf("map_ite_val", [z3.BoolSort(), Val, Val], Val)
+                pb, qb = z3.Bool("p!mo"), z3.Bool("q!mo")
+                av, bv = z3.Const("a!mo", Val), z3.Const("b!mo", Val)
+                for ax in (z3.ForAll([pb, qb], or2(pb, qb) == z3.Or(pb, qb), patterns=[or2(pb, qb)]),
+                           z3.ForAll([pb, av, bv], itv(pb, av, bv) == z3.If(pb, av, bv), patterns=[itv(pb, av, bv)])):
+                    if not any(a.eq(ax) for a in self.global_axioms):
+                        self.global_axioms.append(ax)
+                nh = z3.Map(or2, has_d, has_s)
+                nv = z3.Map(itv, has_s, val_s, val_d)
+                n = smt.fresh("mlen", IntS)
+                # the length is not tracked exactly: max(len a, len b) <= len <= len a + len b (quantifier-free)
+                la, lb = z3.Select(st1.H("$len"), r), z3.Select(st1.H("$len"), sr)
+                st1.assume(n >= la, n >= lb, n <= la + lb)
+                st1.setH("$dhas", z3.Store(st1.H("$dhas"), r, nh))
+                st1.setH("$dval", z3.Store(st1.H("$dval"), r, nv))
+                st1.setH("$len", z3.Store(st1.H("$len"), r, n))
+            return k(st1, SV(ref, "dict"))
+
+        return self.ev_list(exprs, st, done)
 
     def e_Set(self, e, st, k):
         def done(st1, vs):
